@@ -402,6 +402,18 @@ class ContCase:
             return
         r = rng.random()
         b = self.buf
+        if r < 0.04:
+            # lines whose length sits at the line buffer's capacity boundaries (1 KiB, doubling), in any order
+            ls = [rng.choice([15, 16, 17, 1022, 1023, 1024, 1025, 2047, 2048, 2049, 4096, 4097]) for _ in range(rng.randint(1, 6))]
+            x = b"".join(bytes(rng.choice(b"abcdefgh ") for _ in range(n)) + b"\n" for n in ls)
+            if rng.random() < 0.3:
+                x = x[:-1]
+            self.emit("b", "reset", "BR", "R", None)
+            del b[:]
+            self.emit("b", "puts-boundary-lines", "BP %s" % x.hex(), "P:" + x.hex(), ("status", 0))
+            b += x
+            self.emit("b", "getline", "BL", "L", ("lines", pylines(bytes(b))))
+            return
         if r < 0.30:
             x = self.blob()
             self.emit("b", "puts" if x else "puts-empty", "BP %s" % (x.hex() or "-"), "P:" + (x.hex() or "-"), ("status", 0))
